@@ -10,6 +10,7 @@ import (
 	"github.com/hneemann/parser2/listMap"
 	"math"
 	"sort"
+	"sync"
 	"sync/atomic"
 )
 
@@ -60,14 +61,23 @@ func createSliceIterable(items []Value) ListProducer {
 
 // NewListFromIterable creates a list based on the given Iterable
 func NewListFromIterable(li ListProducer) *List {
-	return &List{iterable: li, itemsPresent: false, size: -1}
+	return NewListFromSizedIterable(li, -1)
 }
 
 // NewListFromSizedIterable creates a list based on the given Iterable.
 // In contrast to NewListFromIterable, this function is to be used if the
 // size of the iterable is known.
 func NewListFromSizedIterable(li ListProducer, size int) *List {
-	return &List{iterable: li, itemsPresent: false, size: size}
+	l := &List{itemsPresent: false, size: size}
+	// The iterable is never replaced, so it can be used without synchronization.
+	// As soon as the items are evaluated, they are used instead of the producer.
+	l.iterable = func(st funcGen.Stack[Value]) iterator.Producer[Value] {
+		if items, ok := l.evaluated(); ok {
+			return createSliceIterable(items)(st)
+		}
+		return li(st)
+	}
+	return l
 }
 
 type ListProducer = func(funcGen.Stack[Value]) iterator.Producer[Value]
@@ -78,6 +88,16 @@ type List struct {
 	itemsPresent bool
 	iterable     ListProducer
 	size         int
+	// mu guards items and itemsPresent. A list, e.g. a constant of a generated
+	// function, may be used by several goroutines at the same time.
+	mu sync.Mutex
+}
+
+// evaluated returns the items of the list and true if the items are already evaluated.
+func (l *List) evaluated() ([]Value, bool) {
+	l.mu.Lock()
+	defer l.mu.Unlock()
+	return l.items, l.itemsPresent
 }
 
 func (l *List) ToMap() (Map, bool) {
@@ -146,7 +166,7 @@ func (l *List) ToList() (*List, bool) {
 }
 
 func (l *List) Eval(st funcGen.Stack[Value]) error {
-	if !l.itemsPresent {
+	if _, ok := l.evaluated(); !ok {
 		var it []Value
 		for v, err := range l.iterable(st) {
 			if err != nil {
@@ -155,9 +175,12 @@ func (l *List) Eval(st funcGen.Stack[Value]) error {
 			it = append(it, v)
 		}
 		verifPoint("List.Eval.publish", len(it), cap(it))
-		l.items = it
-		l.itemsPresent = true
-		l.iterable = createSliceIterable(it)
+		l.mu.Lock()
+		if !l.itemsPresent {
+			l.items = it
+			l.itemsPresent = true
+		}
+		l.mu.Unlock()
 	}
 	return nil
 }
@@ -225,7 +248,8 @@ func (l *List) ToSlice(st funcGen.Stack[Value]) ([]Value, error) {
 	if err != nil {
 		return nil, err
 	}
-	return l.items[0:len(l.items):len(l.items)], nil
+	items, _ := l.evaluated()
+	return items[0:len(items):len(items)], nil
 }
 
 // CopyToSlice creates a slice copy of all elements
@@ -234,8 +258,9 @@ func (l *List) CopyToSlice(st funcGen.Stack[Value]) ([]Value, error) {
 	if err != nil {
 		return nil, err
 	}
-	co := make([]Value, len(l.items))
-	copy(co, l.items)
+	items, _ := l.evaluated()
+	co := make([]Value, len(items))
+	copy(co, items)
 	return co, nil
 }
 
@@ -247,6 +272,8 @@ func (l *List) Append(st funcGen.Stack[Value]) (*List, error) {
 	if err != nil {
 		return nil, err
 	}
+	l.mu.Lock()
+	defer l.mu.Unlock()
 	newList := append(l.items, st.Get(1))
 	verifPoint("List.Append.cap", len(l.items), cap(l.items))
 	// Guarantee a copy operation the next time append is called on this
@@ -259,8 +286,8 @@ func (l *List) Append(st funcGen.Stack[Value]) (*List, error) {
 }
 
 func (l *List) SizeIfKnown() (int, bool) {
-	if l.itemsPresent {
-		return len(l.items), true
+	if items, ok := l.evaluated(); ok {
+		return len(items), true
 	} else if l.size >= 0 {
 		return l.size, true
 	} else {
@@ -273,7 +300,8 @@ func (l *List) Size(st funcGen.Stack[Value]) (int, error) {
 	if err != nil {
 		return 0, err
 	}
-	return len(l.items), nil
+	items, _ := l.evaluated()
+	return len(items), nil
 }
 
 func ToFunc(name string, st funcGen.Stack[Value], n int, args int) (funcGen.Function[Value], error) {
@@ -506,9 +534,9 @@ func (l *List) Merge(sta funcGen.Stack[Value]) (*List, error) {
 }
 
 func (l *List) First(st funcGen.Stack[Value]) (Value, error) {
-	if l.itemsPresent {
-		if len(l.items) > 0 {
-			return l.items[0], nil
+	if items, ok := l.evaluated(); ok {
+		if len(items) > 0 {
+			return items[0], nil
 		}
 	} else {
 		for v, err := range l.iterable(st) {
@@ -519,9 +547,9 @@ func (l *List) First(st funcGen.Stack[Value]) (Value, error) {
 }
 
 func (l *List) Single(st funcGen.Stack[Value]) (Value, error) {
-	if l.itemsPresent {
-		if len(l.items) == 1 {
-			return l.items[0], nil
+	if items, ok := l.evaluated(); ok {
+		if len(items) == 1 {
+			return items[0], nil
 		}
 	} else {
 		var found bool
@@ -545,9 +573,9 @@ func (l *List) Single(st funcGen.Stack[Value]) (Value, error) {
 }
 
 func (l *List) Last(st funcGen.Stack[Value]) (Value, error) {
-	if l.itemsPresent {
-		if len(l.items) > 0 {
-			return l.items[len(l.items)-1], nil
+	if items, ok := l.evaluated(); ok {
+		if len(items) > 0 {
+			return items[len(items)-1], nil
 		}
 	} else {
 		var last Value
@@ -1438,7 +1466,7 @@ func (l *List) containsAllItems(st funcGen.Stack[Value], lookForList *List, fg *
 		return false, err
 	}
 
-	if l.itemsPresent && len(l.items) < len(lookFor) {
+	if items, ok := l.evaluated(); ok && len(items) < len(lookFor) {
 		return false, nil
 	}
 
